@@ -13,7 +13,7 @@ def _items(I, v):
 def b_len(I, v):
     if isinstance(v, PList):
         return len(v.items)
-    if isinstance(v, (tuple, dict, str)):
+    if isinstance(v, (tuple, dict, str, list)):      # a raw Python list: harness-side field exposed to the code (read-only use)
         return len(v)
     if isinstance(v, SeqBox):
         return z3.Length(v.expr)
